@@ -514,7 +514,7 @@ func judge(cr *caseRun, ans []string) {
 	first := cr.runs[0]
 	for _, r := range cr.runs {
 		if r.fam == first.fam && r.res != first.res {
-			add("violation", "chunking:"+entryClass(r.entry), "entry points or chunkings of one family give different callbacks",
+			add("violation", "chunking", "entry points or chunkings of one family give different callbacks ("+r.entry+" vs "+first.entry+")",
 				cr.replayOf(map[string]any{"entry": r.entry, "got": r.res, "reference_entry": first.entry, "reference": first.res}))
 			break
 		}
@@ -528,8 +528,8 @@ func judge(cr *caseRun, ans []string) {
 		info := map[string]any{"entry": r.entry, "impl": r.res, "model": model, "expected": exp, "spec": spec}
 		// the tie: model of the current code == implementation (values of the model are the
 		// document's own, so the comparison is made for the oj family and for sen on equal footing)
-		if r.res != model && !seenClass["m:"+entryClass(r.entry)] {
-			seenClass["m:"+entryClass(r.entry)] = true
+		if r.res != model && !seenClass["m"] {
+			seenClass["m"] = true
 			add("disagreement", "model:"+entryClass(r.entry), "model and implementation give different callbacks", cr.replayOf(info))
 		}
 		if !ok || dup {
@@ -538,11 +538,10 @@ func judge(cr *caseRun, ans []string) {
 		if r.res == exp {
 			continue
 		}
-		key := "v:" + entryClass(r.entry)
-		if seenClass[key] {
+		if seenClass["v"] { // one finding per case: the first entry point that departs
 			continue
 		}
-		seenClass[key] = true
+		seenClass["v"] = true
 		dc := diffClass(r.res, exp)
 		if len(feats) > 0 && r.res == model {
 			all := true
@@ -553,13 +552,13 @@ func judge(cr *caseRun, ans []string) {
 			}
 			if all {
 				for f := range feats {
-					rep.Add(lib.Finding{Kind: "known", Class: "callbacks:" + entryClass(r.entry) + ":" + f, KnownID: "C17-" + f,
+					rep.Add(lib.Finding{Kind: "known", Class: "callbacks:" + f, KnownID: "C17-" + f,
 						What: "callbacks differ from parse-then-locate (" + dc + "); the targets use the construct and the model of the current code reproduces the callbacks", Replay: cr.replayOf(info)})
 				}
 				continue
 			}
 		}
-		add("violation", "callbacks:"+entryClass(r.entry)+":"+dc, "callbacks differ from parse-then-locate: "+dc, cr.replayOf(info))
+		add("violation", "callbacks:"+dc, "callbacks of "+r.entry+" differ from parse-then-locate: "+dc, cr.replayOf(info))
 	}
 }
 
